@@ -47,7 +47,7 @@ type caseDesc struct {
 }
 
 func (d caseDesc) mode() string {
-	if d.Carrier == vlib.CarTCPTLS || d.Carrier == vlib.CarHTTPS {
+	if d.Carrier == vlib.CarTCPTLS || d.Carrier == vlib.CarHTTPS || d.Carrier == vlib.CarUnixTLS {
 		return "tls"
 	}
 	return "starttls"
@@ -186,6 +186,14 @@ func allCases(withDNS bool) []caseDesc {
 					}
 				}
 			}
+		}
+	}
+	// TLS over a unix-domain socket: the upstream address has a path and no host name a certificate could match, so - like
+	// the host-less spellings above - it is judged for what it must never do: complete a session with a server it cannot
+	// verify, unless the user chose insecure mode
+	for _, sc := range []string{"match", "wronghost", "untrusted", "expired", "platform"} {
+		for _, ins := range []bool{false, true} {
+			out = append(out, caseDesc{Carrier: vlib.CarUnixTLS, ServerCert: sc, Insecure: ins, ClientCert: "none", Host: "(none)"})
 		}
 	}
 	return out
